@@ -293,7 +293,7 @@ impl AttrProbe {
     /// `write_response_headers` into a cursor over `cap` octets: (octets, has_events, complete)
     pub fn write_response(&mut self, cap: usize) -> Result<(Vec<u8>, bool, bool), ()> {
         guard(|| {
-            let mut buf = vec![0u8; cap];
+            let mut buf = vec![0xA5u8; cap];
             let mut cursor = WriteCursor::new(&mut buf);
             let info = self.handle.write_response_headers(&mut cursor);
             let n = cursor.position();
@@ -376,7 +376,7 @@ pub fn master_write(cap: usize, attrs: &[(u8, u8, Val)]) -> Result<Result<Vec<u8
             };
             headers = headers.add_attribute(OwnedAttribute::new(AttrSet::new(*set), *var, value));
         }
-        let mut buf = vec![0u8; cap];
+        let mut buf = vec![0xA5u8; cap];
         let mut cursor = WriteCursor::new(&mut buf);
         let mut writer: HeaderWriter = match crate::app::format::write::start_request(
             ControlField::from(0xC0),
